@@ -208,7 +208,7 @@ func (d *Document) AddHeader(headerType HeaderFooterType, text string) error {
 	header.Paragraphs = append(header.Paragraphs, paragraph)
 
 	// 生成关系ID
-	headerID := fmt.Sprintf("rId%d", len(d.documentRelationships.Relationships)+2) // +2因为rId1保留给styles
+	headerID := d.nextDocumentRelationshipID() // +2因为rId1保留给styles
 
 	// 序列化页眉
 	headerXML, err := xml.MarshalIndent(header, "", "  ")
@@ -261,7 +261,7 @@ func (d *Document) AddFooter(footerType HeaderFooterType, text string) error {
 	footer.Paragraphs = append(footer.Paragraphs, paragraph)
 
 	// 生成关系ID
-	footerID := fmt.Sprintf("rId%d", len(d.documentRelationships.Relationships)+2) // +2因为rId1保留给styles
+	footerID := d.nextDocumentRelationshipID() // +2因为rId1保留给styles
 
 	// 序列化页脚
 	footerXML, err := xml.MarshalIndent(footer, "", "  ")
@@ -340,7 +340,7 @@ func (d *Document) AddHeaderWithPageNumber(headerType HeaderFooterType, text str
 	header.Paragraphs = append(header.Paragraphs, paragraph)
 
 	// 生成关系ID
-	headerID := fmt.Sprintf("rId%d", len(d.documentRelationships.Relationships)+2) // +2因为rId1保留给styles
+	headerID := d.nextDocumentRelationshipID() // +2因为rId1保留给styles
 
 	// 序列化页眉
 	headerXML, err := xml.MarshalIndent(header, "", "  ")
@@ -419,7 +419,7 @@ func (d *Document) AddFooterWithPageNumber(footerType HeaderFooterType, text str
 	footer.Paragraphs = append(footer.Paragraphs, paragraph)
 
 	// 生成关系ID
-	footerID := fmt.Sprintf("rId%d", len(d.documentRelationships.Relationships)+2) // +2因为rId1保留给styles
+	footerID := d.nextDocumentRelationshipID() // +2因为rId1保留给styles
 
 	// 序列化页脚
 	footerXML, err := xml.MarshalIndent(footer, "", "  ")
@@ -578,7 +578,7 @@ func (d *Document) AddFormattedHeader(headerType HeaderFooterType, config *Heade
 	header.Paragraphs = append(header.Paragraphs, paragraph)
 
 	// 生成关系ID
-	headerID := fmt.Sprintf("rId%d", len(d.documentRelationships.Relationships)+2) // +2因为rId1保留给styles
+	headerID := d.nextDocumentRelationshipID() // +2因为rId1保留给styles
 
 	// 序列化页眉
 	headerXML, err := xml.MarshalIndent(header, "", "  ")
@@ -643,7 +643,7 @@ func (d *Document) AddFormattedFooter(footerType HeaderFooterType, config *Heade
 	footer.Paragraphs = append(footer.Paragraphs, paragraph)
 
 	// 生成关系ID
-	footerID := fmt.Sprintf("rId%d", len(d.documentRelationships.Relationships)+2) // +2因为rId1保留给styles
+	footerID := d.nextDocumentRelationshipID() // +2因为rId1保留给styles
 
 	// 序列化页脚
 	footerXML, err := xml.MarshalIndent(footer, "", "  ")
